@@ -204,6 +204,12 @@ func c15Signed(shard, nshards int) vh.Unit {
 			{mkPeer("x", "enode://"+strings.Repeat("b", 129))}, {mkPeer("x", strings.Repeat("c", 136))}, {mkPeer("x", strings.Repeat("c", 137))},
 			{mkPeer(H.NodeID, ""), mkPeer(H.NodeID, ""), mkPeer(C.NodeID, "")},
 		}
+		for n := 120; n <= 142; n++ {
+			peerSets = append(peerSets, []ethnode.PeerInfo{mkPeer("y", strings.Repeat("d", n))})
+			if n >= 8 {
+				peerSets = append(peerSets, []ethnode.PeerInfo{mkPeer("y", "enode://"+strings.Repeat("e", n-8))})
+			}
+		}
 		big := make([]ethnode.PeerInfo, 1500)
 		for i := range big {
 			big[i] = mkPeer(fmt.Sprintf("%0128x", i), "")
